@@ -458,11 +458,10 @@ def _walk_own(fn_node) -> Iterator[ast.AST]:
     while todo:
         n = todo.pop()
         yield n
+        if isinstance(n, (ast.FunctionDef, ast.AsyncFunctionDef, ast.ClassDef, ast.Lambda)):
+            # a nested definition: yielded, but its body belongs to another scope
+            continue
         for c in ast.iter_child_nodes(n):
-            if isinstance(c, (ast.FunctionDef, ast.AsyncFunctionDef, ast.ClassDef, ast.Lambda)):
-                # yield the def node itself but do not descend
-                yield c
-                continue
             todo.append(c)
 
 
